@@ -942,7 +942,12 @@ func (gqm *GroupQuotaManager) OnPodUpdate(newQuotaName, oldQuotaName string, new
 			}
 
 			isAssigned := gqm.getPodIsAssignedNoLock(newQuotaName, newPod)
-			if isAssigned {
+			if isAssigned && util.IsPodTerminated(newPod) {
+				// a terminated pod no longer uses the quota. OnPodAdd does not count it either, so without this the
+				// used of a restarted scheduler differs from the used of the one that saw the pod terminate.
+				gqm.updatePodUsedNoLock(newQuotaName, oldPod, nil)
+				gqm.updatePodIsAssignedNoLock(newQuotaName, newPod, false)
+			} else if isAssigned {
 				// reserve phase will assign the pod. Just update it.
 				// upgrade will change the resource.
 				gqm.updatePodUsedNoLock(newQuotaName, oldPod, newPod)
